@@ -41,9 +41,9 @@ add(Contract(
         ("fail-pure", "implies(not result, state.pos == P0 and ntokens(state) == old(ntokens(state)) and state.pending == old(state.pending))", ["C01", "C09"]),
         ("silent-pure", "implies(silent, ntokens(state) == old(ntokens(state)) and state.pending == old(state.pending))", ["C01"]),
         ("level", "state.level == old(state.level) and state.posMax == old(state.posMax)", ["C01", "C02"]),
-        ("one-token", "implies(result and not silent, ntokens(state) == old(ntokens(state)) + (2 if old(len(state.pending)) > 0 else 1))", ["C02"]),
-        ("entity-token", "implies(result and not silent, T[-1].type == 'text_special' and T[-1].nesting == 0 and T[-1].level == old(state.level))", ["C02", "C09", "C19"]),
-        ("entity-info", "implies(result and not silent, T[-1].info == 'entity')", ["C02", "C09", "C19"]),
+        ("one-token", "implies(result and not silent, ntokens(state) == old(ntokens(state)) + (2 if old(len(state.pending)) > 0 else 1))", ["C02", "C09", "C19"]),
+        ("entity-token", "implies(result and not silent and ntokens(state) > old(ntokens(state)), T[-1].type == 'text_special' and T[-1].nesting == 0 and T[-1].level == old(state.level))", ["C02", "C09", "C19"]),
+        ("entity-info", "implies(result and not silent and ntokens(state) > old(ntokens(state)), T[-1].info == 'entity')", ["C02", "C09", "C19"]),
         # C09/C19: a character written as a reference never reaches the pending text (where typography or a later rule
         # could reinterpret it): the pending text is flushed and the decoded character travels in its own token
         ("decoded-character-not-in-pending", "implies(result and not silent, len(state.pending) == 0)", ["C09", "C19"]),
